@@ -101,7 +101,7 @@ pub fn classify(s: &str) -> Class {
 
 pub const VOCAB: &[&str] = &[
     "SET", "set", "SHOW", "show", "SHARD", "SHARDING", "KEY", "SERVER", "ROLE", "PRIMARY", "READS", "TO", "to", " ", "  ", "\t", "\n", "'", "\"", ";", "0", "1", "99",
-    "12345678901234567890", "ANY", "any", "primary", "REPLICA", "auto", "default", "on", "OFF", "SELECT 1", "--x", "/*x*/", "x",
+    "12345678901234567890", "ANY", "any", "Any", "primary", "REPLICA", "auto", "default", "on", "OFF", "SELECT 1", "--x", "/*x*/", "x",
 ];
 
 /// Arguments and padding of "any length": zero-padded numbers and long runs of spaces at the ends.
@@ -128,6 +128,21 @@ pub fn canonical_spellings() -> Vec<Vec<&'static str>> {
     }
     v.push(vec!["SET", " ", "SHARD", " ", "TO", " ", "ANY"]);
     v.push(vec![" ", "set", " ", "shard", " ", "to", " ", "'", "any", "'", " ", ";", " "]);
+    // mixed letter case in keywords and in keyword-valued arguments
+    for a in ["Any", "aNY", "anY"] {
+        v.push(vec!["SET", " ", "SHARD", " ", "TO", " ", a]);
+        v.push(vec!["Set", " ", "Shard", " ", "To", " ", "'", a, "'", ";"]);
+        v.push(vec!["SET", " ", "SERVER", " ", "ROLE", " ", "TO", " ", "'", a, "'"]);
+    }
+    for r in ["Primary", "rEPLICA", "Auto", "deFault"] {
+        v.push(vec!["sEt", " ", "sErver", " ", "rOle", " ", "tO", " ", "'", r, "'"]);
+    }
+    for p in ["On", "oFF", "Default"] {
+        v.push(vec!["Set", " ", "Primary", " ", "Reads", " ", "To", " ", p]);
+    }
+    v.push(vec!["Show", " ", "Shard"]);
+    v.push(vec!["sHOW", " ", "Server", " ", "Role", ";"]);
+    v.push(vec!["shoW", " ", "primarY", " ", "readS"]);
     for r in ["primary", "REPLICA", "any", "auto", "default"] {
         v.push(vec!["SET", " ", "SERVER", " ", "ROLE", " ", "TO", " ", "'", r, "'"]);
         v.push(vec!["set", " ", "server", " ", "role", " ", "to", " ", "'", r, "'", ";"]);
